@@ -170,7 +170,60 @@ def run(ctx):
     w2, _ = setup(ctx)
     I2 = w2.I
     Hw, Dw, Hs, Ds = (tuple(sp.symbols(f"{n}_re {n}_im {n}_inc", real=True)) for n in ("H2O", "D2O", "Hform", "Dform"))
-    I2.stubs[DH] = lambda I_, a, k: (Hw, Dw, Hs, Ds)
+    # the stand-in has the shape of what the helper really returns: the helper is evaluated once, the four component SLDs are
+    # located in its result by their values (not by position or field name) and replaced by opaque ones
+    from ptstat import algebra as _alg_
+    from ptstat.symlib import NTuple as _NT
+    real = I.call(I.global_name(*DH.split(".", 1)), [mol], dict(kw))
+    refs = {"H2O": H2O, "D2O": D2O, "Hform": substituted(sp.Integer(0)), "Dform": substituted(sp.Integer(1))}
+    found = {}
+
+    def same(v, ref):
+        try:
+            return _alg_.equal(v[0], ref[0], seed=ctx.seed, points=4)[0]
+        except (AnalysisError, TypeError, IndexError):
+            return False
+
+    def is_sld(v):
+        return isinstance(v, (tuple, list)) and len(v) == 3 and all(is_num(x) for x in v)
+
+    def is_num(x):
+        try:
+            sp.sympify(x)
+            return not isinstance(x, (tuple, list, dict, str))
+        except (sp.SympifyError, TypeError):
+            return False
+
+    def shaped(v, sub):
+        if is_sld(v):
+            for role, ref in refs.items():
+                if role not in found.get(id(sub), {}) and same(v, ref):
+                    found.setdefault(id(sub), {})[role] = True
+                    return sub[role]
+            return v
+        if isinstance(v, _NT):
+            t = _NT([shaped(x, sub) for x in v])
+            t._fields, t._tname = v._fields, v._tname
+            if getattr(v, "_cls", None) is not None:
+                t._cls = v._cls
+            return t
+        if isinstance(v, tuple):
+            return tuple(shaped(x, sub) for x in v)
+        if isinstance(v, list):
+            return [shaped(x, sub) for x in v]
+        if isinstance(v, dict):
+            return {k_: shaped(x, sub) for k_, x in v.items()}
+        return v
+
+    def stand_in(sub):
+        r_ = shaped(real, sub)
+        if len(found.get(id(sub), {})) != 4:
+            raise AnalysisError(f"the result of {DH} does not hold the four component SLDs (H2O, D2O, solute with H, solute with D): "
+                                f"found {sorted(found.get(id(sub), {}))}")
+        return r_
+    opaque = {"H2O": Hw, "D2O": Dw, "Hform": Hs, "Dform": Ds}
+    opaque_result = stand_in(opaque)
+    I2.stubs[DH] = lambda I_, a, k: opaque_result
     match, msld = I2.call(I2.global_name("nsf", "D2O_match"), [None], {})
     solute = lambda x: x * Ds[0] + (1 - x) * Hs[0]
     solvent = lambda x: x * Dw[0] + (1 - x) * Hw[0]
@@ -188,7 +241,9 @@ def run(ctx):
     # fasta.D2Omatch is the same equation, as a percentage
     Hx, Dx = sp.symbols("Hx Dx", real=True)
     fm_ = I.call(I.global_name("fasta", "D2Omatch"), [Hx, Dx], {})
-    I2.stubs[DH] = lambda I_, a, k: ((I.global_name("fasta", "H2O_SLD"), 0, 0), (I.global_name("fasta", "D2O_SLD"), 0, 0), (Hx, 0, 0), (Dx, 0, 0))
+    fasta_result = stand_in({"H2O": (I.global_name("fasta", "H2O_SLD"), 0, 0), "D2O": (I.global_name("fasta", "D2O_SLD"), 0, 0),
+                             "Hform": (Hx, 0, 0), "Dform": (Dx, 0, 0)})
+    I2.stubs[DH] = lambda I_, a, k: fasta_result
     nm, _ = I2.call(I2.global_name("nsf", "D2O_match"), [None], {})
     eq(ctx, "R1", "fasta.D2Omatch(Hsld, Dsld) = 100 * the nsf match equation with the 20 C water SLDs", fm_, 100 * nm,
        fsite(ctx, "fasta.D2Omatch"))
